@@ -32,7 +32,7 @@ theorem isort_perm {α : Type} (lt : α → α → Bool) (l : List α) : (sliceS
   exact (List.reverse_perm _).trans (this.trans (List.reverse_perm _))
 
 theorem sortKeyed_eq : ∀ (cs : List Diff),
-    Diff.sortKeyed cs = cs.map (fun c => (c.flatten true, c.sort))
+    Diff.sortKeyed cs = cs.map (fun c => (sortKeyOf (c.flatten true), c.sort))
   | [] => by rw [Diff.sortKeyed]; rfl
   | c :: cs => by rw [Diff.sortKeyed, sortKeyed_eq cs]; rfl
 
@@ -41,7 +41,7 @@ theorem sort_kids_perm (L R : Option INode) (cs : List Diff) :
     ((Diff.mk L R cs).sort).kids.Perm (cs.map Diff.sort) := by
   rw [Diff.sort]
   show ((sliceStable _ (Diff.sortKeyed cs)).map (·.2)).Perm _
-  have h := (isort_perm (fun a b : Node × Diff => lessNode a.1 b.1) (Diff.sortKeyed cs)).map (·.2)
+  have h := (isort_perm (fun a b : SortKey × Diff => lessKey a.1 b.1) (Diff.sortKeyed cs)).map (·.2)
   rw [sortKeyed_eq] at h ⊢
   simpa [List.map_map, Function.comp_def] using h
 
